@@ -65,23 +65,19 @@ class Enc:
         the words of a record write at the crash point are an arbitrary subset)."""
         sels = [self.fresh('wsel', z3.BoolSort()) for _ in groups]
         self.add(z3.PbEq([(s, 1) for s in sels], 1))
-        newcur = {}
-        base_cur = dict(self.wcur)
         for g, sel in zip(groups, sels):
             gp = list(pairs)
-            cur = dict(base_cur)
             for e in g.events:
                 if e.kind in ('load', 'read'):
                     if e.kind == 'read':
                         raise EngineError('writer reads a multi-word record from the segment')
                     loc = (e.args[1], e.args[2])
                     self.w_add(WEv('ld', loc, e.args[3], en=sel))
-                    gp.append((e.ret, cur.get(loc, self.init_val(loc))))
+                    gp.append((e.ret, self.wvalue(loc)))
                 elif e.kind == 'store':
                     loc = (e.args[1], e.args[2])
                     val = subst(e.info['val'], gp)
                     self.w_add(WEv('st', loc, e.args[3], val, en=sel, pub=pub))
-                    cur[loc] = val
                 elif e.kind == 'write':
                     rec = subst(e.info['val'], gp)
                     nwords = e.args[2] // WORD
@@ -89,7 +85,6 @@ class Enc:
                     for i in range(nwords):
                         loc = (e.args[1] + WORD * i, WORD)
                         w = self.w_add(WEv('st', loc, 'na', rec.f[i], en=sel, pub=pub, tag='word%d' % i)); grp.append(w)
-                        cur[loc] = rec.f[i]
                 elif e.kind == 'fence':
                     self.w_add(WEv('fence', None, e.args[0], en=sel))
                 elif e.kind == 'cfence':
@@ -98,14 +93,16 @@ class Enc:
                     raise EngineError('writer event ' + e.kind)
             guard = subst(g.guard(), gp)
             self.add(z3.Implies(sel, guard))
-            for loc, v in cur.items():
-                newcur.setdefault(loc, []).append((sel, v))
-        for loc, lst in newcur.items():
-            v = lst[-1][1]
-            for s, x in reversed(lst[:-1]):
-                v = ite(s, x, v)
-            self.wcur[loc] = v
         return sels
+
+    def wvalue(self, loc):
+        """content of a location as the (single, current) writer sees it: its own / its predecessors' latest
+        PERFORMED store, else the initial content"""
+        v = self.init_val(loc)
+        for e in self.wev:
+            if e.kind == 'st' and e.loc == loc:
+                v = e.val if z3.is_true(z3.simplify(e.en)) else z3.If(e.en, e.val, v)
+        return v
 
     def init_val(self, loc):
         if loc not in self.init:
